@@ -133,6 +133,29 @@ func genPkt4(r *Rng, inDomain bool) *dhcpv4.DHCPv4 {
 		}
 		p.Options[uint8(code)] = v
 	}
+	if r.Chance(1, 10) {
+		// the vendor class identifiers, boot server names and file names real clients and
+		// servers use: code that treats "PXEClient", an iPXE user class, ... specially
+		// does so on these strings and on no random ones (seeded change C01-16)
+		p.Options[60] = []byte([]string{"PXEClient", "PXEClient:Arch:00007:UNDI:003016", "PXEClient:Arch:00000:UNDI:002001", "HTTPClient:Arch:00016:UNDI:003001",
+			"MSFT 5.0", "udhcp 1.36.1", "dhcpcd-9.4.1", "android-dhcp-13", "AAPLBSDPC/i386", "docsis3.0:", "Cisco Systems, Inc."}[r.Intn(11)])
+		if r.Chance(2, 3) {
+			p.Options[66] = []byte([]string{"boot.example.net", "10.0.0.5", "tftp"}[r.Intn(3)])
+		}
+		if r.Chance(2, 3) {
+			p.Options[67] = []byte([]string{"pxelinux.0", "ipxe.efi", "http://boot.example.net/x.efi", "bootx64.efi"}[r.Intn(4)])
+		}
+		if r.Chance(1, 2) {
+			p.Options[77] = []byte("iPXE")
+		}
+		if r.Chance(1, 2) {
+			p.ServerHostName, p.BootFileName = "", ""
+		}
+		p.OpCode = dhcpv4.OpcodeType(1 + r.Intn(2))
+		if r.Chance(1, 2) {
+			delete(p.Options, 52)
+		}
+	}
 	if inDomain && r.Chance(1, 12) {
 		sizePkt4(p, pkt4Sizes[r.Intn(len(pkt4Sizes))])
 	}
